@@ -1,4 +1,4 @@
-(* go-sha256: 495775e9f1a74695e21d78d2b80fc3648767cf925ed754946f4ec1e98911871a *)
+(* go-sha256: 6fafd9a3624bc87bbd76abeab1a6ddc5699c50b26431973e5ff12c004a02270d *)
 (* deps: trend_Ema trend_Sma trend_NewSma trend_Sma_Compute *)
 Definition trend_Ema_Compute (e : trend_Ema) (c : (expr I T)) : (expr I T) :=
   let sma := trend_NewSma in
